@@ -358,6 +358,8 @@ def _collect1(w, f):
                     lens.append(("concat", t))
                 elif n == "nth" and t.num_args() == 2:
                     lens.append(("nth", t))
+                elif n == "reverse_acc" and t.num_args() == 2:
+                    lens.append(("rev", t))
                 elif (n.endswith("__list") or n.startswith("comp!")) and t.num_args() >= 1:
                     lens.append(("map", t))
             stack.extend(t.children())
@@ -396,8 +398,88 @@ def _inst(w, app, cls):
         else:
             f, params, body, recursive = w.defs[n]
             inst = z3.substitute(body, *list(zip(params, app.children())))
+        if any(z3.is_app(c) and c.decl().kind() == z3.Z3_OP_DT_CONSTRUCTOR and c.num_args() > 0
+               for c in app.children()):
+            inst = z3.simplify(inst)       # accessor-of-constructor, is_nil(cons …) reduce
         cache[k] = (app, inst)
     return cache[k][1]
+
+
+def _def_edges(w, n):
+    """Spec / lazy symbols mentioned by the definition of n."""
+    cache = w.__dict__.setdefault("_edge_cache", {})
+    if n in cache:
+        return cache[n]
+    out = set()
+    seen = set()
+    stack = [w.defs[n][2]]
+    while stack:
+        t = stack.pop()
+        if t.get_id() in seen:
+            continue
+        seen.add(t.get_id())
+        if z3.is_app(t):
+            m = t.decl().name()
+            if m in w.defs:
+                out.add(m)
+            elif m in w.lazy:
+                sf = w.lazy[m][1]
+                out.add(sf.f.name() if hasattr(sf, "f") and hasattr(sf, "params") else m)
+                out.add("<lazy>")
+            else:
+                for suf in ("__list", "__cat", "__all"):
+                    if m.endswith(suf) and m[:-len(suf)] in w.defs:
+                        out.add(m[:-len(suf)])
+                        out.add("<lazy>")
+            stack.extend(t.children())
+    cache[n] = out
+    return out
+
+
+def _on_cycle(w, n):
+    """Does the definition of n (transitively) mention n itself, or any lazily defined child
+    combinator / list lift (those are recursive by construction)?"""
+    cache = w.__dict__.setdefault("_cycle_cache", {})
+    if n in cache:
+        return cache[n]
+    if w.defs[n][3] and n.startswith(("wf_list__", "comp!", "all!", "any!")):
+        cache[n] = True
+        return True
+    seen = set()
+    stack = list(_def_edges(w, n))
+    res = False
+    while stack:
+        m = stack.pop()
+        if m == n:
+            res = True
+            break
+        if m in seen or m not in w.defs:
+            continue
+        seen.add(m)
+        stack.extend(_def_edges(w, m))
+    cache[n] = res
+    return res
+
+
+def inline_nonrec(w, f, depth=10):
+    """Replace applications of NON-recursive spec functions by their definitions (the defining
+    equation, applied as a rewrite) and simplify, so that accessor-of-constructor terms reduce and
+    node classes become syntactically visible.  Equivalence preserving."""
+    cache = w.__dict__.setdefault("_inline_cache", {})
+    k = f.get_id()
+    if k in cache:
+        return cache[k][1]
+    g = f
+    for _ in range(depth):
+        apps = [a for a in _collect1(w, g)[0]
+                if a.decl().name() in w.defs and not _on_cycle(w, a.decl().name())]
+        if not apps:
+            break
+        g = z3.substitute(g, *[(a, _inst(w, a, None)) for a in apps])
+    if g is not f:
+        g = z3.simplify(g)
+    cache[k] = (f, g)
+    return g
 
 
 def unfold(w, formulas, fuel=2, facts=None, allclass_budget=0):
